@@ -136,6 +136,9 @@ func Cut(label string) { panic(assumeFail{}) }
 // IsRuntimeError reports whether a recovered panic value is a Go runtime error.
 func IsRuntimeError(v interface{}) bool { _, ok := v.(runtime.Error); return ok }
 
+// Self returns an identifier of the calling thread (stable within one execution).
+func Self() int { return 0 }
+
 // Symbolic reports whether the harness runs under the symbolic executor.
 func Symbolic() bool { return false }
 
